@@ -259,3 +259,40 @@ def ob_rdkit(tier):
         ex = cur()
         return check_rdkit(ex.choose(n, range(1, 4)), ex.choose(bt, range(4)), ex.choose(nm, range(1, 4)), ex.choose(c0, range(2))) is None
     return [Case("RDKit to_mol/from_mol", base, run, dict(n=n, btype=bt, nmodels=nm, c0=c0), _rep(check_rdkit, "n", "btype", "nmodels", "c0"))]
+
+
+# ------------------------------------------------------------------------------ key components
+def check_key_parts(num, name, rint, rext):
+    """every combination of the four key components incl. the falsy-but-present values 0 and ''"""
+    from biotite.structure.io.mol import Metadata
+    NUM = [None, 0, 1, 12]
+    NAME = [None, "abc", "A1.b_c", "0"]
+    RINT = [None, 0, 7, 123]
+    REXT = [None, "", "E-1", "x.y_z"]
+    kw = dict(number=NUM[num], name=NAME[name], registry_internal=RINT[rint], registry_external=REXT[rext])
+    try:
+        key = Metadata.Key(**kw)
+    except ValueError:
+        return None if kw["number"] is None and kw["name"] is None else f"Key({kw}) refused"
+    text = key.serialize()
+    try:
+        back = Metadata.Key.deserialize(text)
+    except Exception as e:
+        return f"Key({kw}) serialises to {text!r}, which cannot be parsed: {type(e).__name__}: {e}"
+    if back != key:
+        return f"Key({kw}) serialises to {text!r} and reads back as {back!r}"
+    md = Metadata({key: "value"})
+    again = Metadata.deserialize(md.serialize())
+    if list(again.keys()) != [key] or again[key] != "value":
+        return f"metadata with Key({kw}) reads back as {dict(again)!r}"
+    return None
+
+
+def ob_key_parts(tier):
+    a, b, c, d = z3.Ints("num name rint rext")
+
+    def run():
+        ex = cur()
+        return check_key_parts(ex.choose(a, range(4)), ex.choose(b, range(4)), ex.choose(c, range(4)), ex.choose(d, range(4))) is None
+    return [Case("metadata key components", [z3.And(v >= 0, v < 4) for v in (a, b, c, d)], run, dict(num=a, name=b, rint=c, rext=d),
+                 _rep(check_key_parts, "num", "name", "rint", "rext"))]
